@@ -2,6 +2,7 @@ package db
 
 import (
 	"context"
+	"database/sql"
 	"fmt"
 	"io"
 	"os"
@@ -52,6 +53,12 @@ func (s *SwappableDB) Swap(path string, fkConstraints, walEnabled bool) error {
 	if !IsValidSQLiteFile(path) {
 		return fmt.Errorf("invalid SQLite data")
 	}
+	// The check above only looks at the file's first bytes. Confirm SQLite can really
+	// open the replacement and read its schema before the current database is closed
+	// and removed, otherwise a bad file would leave this node with no database at all.
+	if err := checkSQLiteFileOpens(s.drv, path); err != nil {
+		return fmt.Errorf("invalid SQLite data: %s", err)
+	}
 
 	s.dbMu.Lock()
 	defer s.dbMu.Unlock()
@@ -79,6 +86,19 @@ func (s *SwappableDB) Swap(path string, fkConstraints, walEnabled bool) error {
 	}
 	s.checkpointMgr = mgr
 	return nil
+}
+
+// checkSQLiteFileOpens returns an error if SQLite cannot open the database file at path
+// and read its schema. The file is opened read-only and immutable, so neither it nor its
+// directory is modified, whatever journal mode the file is in.
+func checkSQLiteFileOpens(drv *Driver, path string) error {
+	db, err := sql.Open(drv.name, fmt.Sprintf("file:%s?mode=ro&immutable=1", path))
+	if err != nil {
+		return err
+	}
+	defer db.Close()
+	var n int
+	return db.QueryRow("SELECT COUNT(*) FROM sqlite_master").Scan(&n)
 }
 
 // Close closes the underlying database.
